@@ -159,3 +159,70 @@ def run_rnsp(facts, rep):
                 rep.ok(R, "%s::%s" % (wt.rsplit("::", 1)[1], nm), "component-wise %s::%s" % (inner.rsplit("::", 1)[1], inner_calls[0][0]),
                        facts.loc(p), nontrivial=False)
     return n
+
+
+def run_negacyclic(facts, rep, floor=0):
+    """R-FAMILY(negacyclic) [N]: multiplication by X^e in Z[X]/(X^n + 1) moves coefficient i to position i + e and flips the sign
+    of the e coefficients that wrap around.  Every base-level routine named negacyclic_multiply_mononomial* / negacyclic_shift
+    either delegates to `negacyclic_shift` with its own exponent, or performs the move itself; if it does so with a slice
+    rotation, std's semantics fix the direction: `rotate_right(e)` (element i -> i + e) followed by a negation of the PREFIX
+    `[..e]`, or `rotate_left(n - e)`.  `rotate_left(e)` — with a negated suffix — is multiplication by X^(-e): every
+    single-monomial plaintext product with exponent >= 1 then decrypts to the wrong coefficients (exponent 0, the one case
+    the suite multiplies by, is unaffected)."""
+    RN = "R-FAMILY(negacyclic)"
+    rep.rule(RN, "base-level monomial multiplications delegate to negacyclic_shift with their exponent, or rotate right by the "
+             "exponent and negate the wrapped prefix")
+    n = 0
+    for p in sorted(facts.hir):
+        nm = p.rsplit("::", 1)[-1]
+        it = facts.items[p]
+        if "polysmallmod" not in p or not nm.startswith("negacyclic_multiply_mononomial") or nm.endswith("_p") or nm.endswith("_ps"):
+            continue
+        exps = {prm["pat"]["lid"]: prm["pat"]["name"] for prm in it["params"]
+                if prm["pat"].get("k") == "PBind" and "exponent" in prm["pat"].get("name", "")}
+        if not exps:
+            continue
+        body = facts.hir[p]
+        n += 1
+        rep.fn(p)
+        key = "%s/direction" % p
+        deleg = [x for x in walk(body) if x.get("k") == "Call" and (callee(x) or {}).get("name") == "negacyclic_shift"]
+        rots = [x for x in walk(body) if x.get("k") == "MCall" and x.get("name") in ("rotate_left", "rotate_right") and x["args"]]
+        if deleg and not rots:
+            a = deleg[0]["args"][1] if len(deleg[0]["args"]) > 1 else None
+            lo = local_of(a) if a is not None else None
+            if lo and lo[0] in exps:
+                rep.ok(RN, key, "delegates to negacyclic_shift with its own exponent", facts.loc(p, deleg[0]), sample={"function": p})
+            else:
+                rep.unresolved(RN, key, "delegates to negacyclic_shift with an amount that is not its exponent parameter",
+                               facts.loc(p, deleg[0]))
+            continue
+        if not rots:
+            rep.unresolved(RN, key, "neither delegation nor slice rotation recognised", facts.loc(p))
+            continue
+        r = rots[0]
+        lo = local_of(r["args"][0])
+        direct = bool(lo and lo[0] in exps)
+        if r["name"] == "rotate_right" and direct:
+            # the negated range must be the prefix [..e]
+            neg_prefix = False
+            for x in walk(body):
+                if x.get("k") in ("Call", "MCall") and "negate" in ((callee(x) or {}).get("name") or x.get("name") or ""):
+                    for a in x.get("args", []):
+                        a0 = strip(a)
+                        if a0.get("k") == "Index":
+                            idx = strip(a0["i"])
+                            if idx.get("k") == "Struct" and "RangeTo" in idx.get("path", ""):
+                                neg_prefix = True
+            if neg_prefix:
+                rep.ok(RN, key, "rotate_right(exponent) with the wrapped prefix negated", facts.loc(p, r))
+            else:
+                rep.unresolved(RN, key, "rotate_right(exponent) but the negation of the wrapped prefix was not recognised", facts.loc(p, r))
+        elif r["name"] == "rotate_left" and direct:
+            rep.violation(RN, key, "`rotate_left(%s)` moves coefficient i to position i - %s: the routine multiplies by X^(-e) instead of "
+                          "X^e, so every product with a single-monomial plaintext of exponent >= 1 lands on the wrong coefficients" %
+                          (lo[1], lo[1]), facts.loc(p, r))
+        else:
+            rep.unresolved(RN, key, "rotation amount is not the exponent parameter itself", facts.loc(p, r))
+    rep.floor(RN, "base-level monomial multiplications", n, floor)
+    return n
